@@ -120,7 +120,8 @@ impl Hash for NumericValue {
             }
             NumericValue::Float(x) => {
                 state.write_u8(FLOAT64_HASH);
-                if x.is_nan() {
+                // 0.0 == -0.0 (and all NaNs are equal to each other): equal values must hash alike.
+                if x.is_nan() || *x == 0.0 {
                     state.write_u64(0);
                 } else {
                     state.write_u64(x.to_bits());
